@@ -103,6 +103,11 @@ static void on_fatal(enum sim_fatal_kind kind, const char *msg)
 			v.push(o);
 		}
 		r["viol"] = v;
+		J n = J::arr();
+		size_t from = g_ctx->notes.size() > 80 ? g_ctx->notes.size() - 80 : 0;
+		for (size_t i = from; i < g_ctx->notes.size(); i++)
+			n.push(g_ctx->notes[i]);
+		r["notes"] = n;
 	}
 	std::string s = r.dump();
 	printf("%s\n", s.c_str());
